@@ -2,3 +2,4 @@ import Driver.Codec
 import Driver.Bt
 import Driver.Bb
 import Driver.Rd
+import Driver.Hp
